@@ -831,6 +831,9 @@ def _pair_cfgs():
     # triples: a channel message, something that must cancel running status (or not), the same kind of channel message again
     out += [{'n': 3, 'a': a, 'b': b, 'c': a} for a in ('note_on', 'program_change')
             for b in ('sysex2', 'meta:set_tempo', 'unknown_meta2', 'tune_request', 'meta:end_of_track', 'note_off')]
+    # an end_of_track inside a track that also ENDS with one (e.g. two complete tracks concatenated): still exactly one FF 2F 00
+    out += [{'n': 3, 'a': 'note_on', 'b': 'meta:end_of_track', 'c': 'meta:end_of_track'},
+            {'n': 3, 'a': 'meta:end_of_track', 'b': 'note_on', 'c': 'meta:end_of_track'}]
     return tuple(out)
 
 
